@@ -180,6 +180,21 @@ def gen(tier, rng):
         yield f"c05.l.shl {hx(v)} {s}"
         yield f"c05.l.shr {hx(v | (1 << 63))} {s}"
 
+    # ---------------- `usize` shift amounts above u32::MAX in the operator forms that take a `usize` (forms 4 = `&x >> usize`,
+    # 5 = `>>= usize`): the amount must not be cut to its low 32 bits (seeds C05-m9 / C11-m9: `shift as u32`)
+    for kind, ws in (('u', [1, 2, 4]), ('i', [1, 2, 4]), ('b', [1, 2, 3])):
+        for n in ws:
+            bits = 64 * n
+            for s in [1 << 32, (1 << 32) + 1, (1 << 32) + 4, (1 << 32) + bits - 1, (1 << 32) + bits, (1 << 33) + 63, 1 << 63, (1 << 64) - 1]:
+                for d in ('shl', 'shr'):
+                    for f in (4, 5):
+                        v = rng.choice([1, (1 << bits) - 1, 1 << (bits - 1), value(rng, n)])
+                        yield f"c05.{kind}.op_{d} {n} {hx(v)} {s} {f}"
+    for s in [1 << 32, (1 << 32) + 4, (1 << 32) + 63, (1 << 64) - 1]:
+        for d in ('shl', 'shr'):
+            for f in (4, 5):
+                yield f"c05.l.op_{d} {hx(rng.choice([1, WMAX, 1 << 63]))} {s} {f}"
+
     # ---------------- fixed Uint / Int
     for n in widths:
         bits = 64 * n
